@@ -65,6 +65,10 @@ type c12Plan struct {
 	// flush, Reset, SetLastPkgRx/Tx, hook registration, Close, Conn.Close, NewChannel, PacketSize. Only safety is
 	// judged: no data race, no panic, every call returns, the reader ends once the connection is closed.
 	Chaos [][]c12ChaosOp `json:"chaos,omitempty"`
+	// ChaosEnd > 0 (chaos only): the peer ends the connection - ChaosEndKind 0: EOF, 1: reset - when it has seen
+	// that many client messages: the calls of the tasks then meet a failed transport.
+	ChaosEnd     int `json:"chaos_end,omitempty"`
+	ChaosEndKind int `json:"chaos_end_kind,omitempty"`
 }
 
 type c12ChaosOp struct {
@@ -107,6 +111,9 @@ func (c12) Gen(r *Rand, idx int, tier string) interface{} {
 		p.QueueSize = 100
 		p.BodySize = Pick(r, []int{9, 18, 504})
 		p.Tasks = []c12Task{{}}
+		if r.Pct(30) {
+			p.ChaosEnd, p.ChaosEndKind = 1+r.Intn(4), r.Intn(2)
+		}
 		return p
 	}
 	maxN := 4
@@ -190,6 +197,11 @@ func (c12) Shrink(plan interface{}) []interface{} {
 	p := plan.(*c12Plan)
 	var out []interface{}
 	if len(p.Chaos) > 0 {
+		if p.ChaosEnd > 0 {
+			q := *p
+			q.ChaosEnd = 0
+			out = append(out, &q)
+		}
 		for i := range p.Chaos {
 			if len(p.Chaos) > 1 {
 				q := *p
@@ -839,8 +851,20 @@ func c12RunChaos(p *c12Plan, schedSeed uint64, replay []simrt.Choice, lenient, k
 			pr.SendPackets([][]byte{peer.MakePacket(peer.BufProtack, peer.BufstatEOM, pk.H.Channel, 0, nil)})
 		}
 	}
+	chaosMsgs := 0
 	pr.OnMsg = func(m *ClientMsg) {
 		if m.Type == peer.BufClose || m.Type == peer.BufSetup {
+			return
+		}
+		chaosMsgs++
+		if p.ChaosEnd > 0 && chaosMsgs == p.ChaosEnd {
+			if p.ChaosEndKind == 1 {
+				pr.Conn.End(simrt.TermReset, false)
+				s.Fault("close-reset")
+			} else {
+				pr.Conn.End(simrt.TermEOF, false)
+				s.Fault("close-eof")
+			}
 			return
 		}
 		if len(m.Body) == 2 && m.Body[0] == 0x71 {
